@@ -6,7 +6,7 @@ from .. import env, coq, runner, tables
 
 LEVEL = 'proof'
 META = dict(
-    text='Coq theorems over any ring with i*i = -1 (hence over C), for strings of any length: the product computed in the shape of MutablePauliString._imul_helper/_imul_atom_helper (regenerated atom table, left/right sign, phase_log_i & 3) and the dense pauli_mask arithmetic with _vectorized_pauli_mul_phase have as matrix the product of the operands\' matrices, coefficient and phase included; the commutation tests decide P Q = +-Q P; negation, scalar multiples, inverse, qubit remapping, dense<->sparse conversion and PauliSum +,-,* are matrix homomorphisms. A correspondence run compares every operator of PauliString / MutablePauliString / DensePauliString / PauliSum with the model evaluated inside Coq on exact Gaussian-rational coefficients (exhaustive pairs and triples on small registers, random up to 5 qubits), and numpy/scipy oracles check products, commutation, Clifford conjugation, PauliStringPhasor, PauliSumExponential and expectation values on the real objects.',
+    text='Coq theorems over any ring with i*i = -1 (hence over C), for strings of any length: the product computed in the shape of MutablePauliString._imul_helper/_imul_atom_helper (regenerated atom table, left/right sign, phase_log_i & 3) and the dense pauli_mask arithmetic with _vectorized_pauli_mul_phase have as matrix the product of the operands\' matrices, coefficient and phase included; the commutation tests decide P Q = +-Q P; negation, scalar multiples, inverse, qubit remapping, dense<->sparse conversion and PauliSum +,-,* are matrix homomorphisms. A correspondence run compares every operator of PauliString / MutablePauliString / DensePauliString / PauliSum with the model evaluated inside Coq on exact Gaussian-rational coefficients (exhaustive pairs and triples on small registers, random up to 5 qubits), and numpy/scipy oracles check products, commutation, Clifford conjugation, PauliStringPhasor, PauliSumExponential and expectation values on the real objects. Histories of in-place operations on one MutableDensePauliString / MutablePauliString / PauliSum (every view of the object read before and after every step; copies taken on the way and operands must keep their values) are compared step by step with the trace of the model (Cliff/PauliHist.v: a history of products and scalar multiples has as matrix the same history on the matrices, rejected steps change nothing, assignments replace exactly the addressed letters) and with the numpy matrix of the history.',
     note='Trusted: Coq kernel; the Python adapters in vf/checks/c14.py (calling Cirq, printing exact rationals; float coefficients are dyadic so Cirq\'s arithmetic is exact on them); vf/tables_c14.py. Conjugation by Cliffords, phasors, exponentials and expectation values are compared with numpy/scipy references on generated inputs (tolerance 1e-8), not proved. Theorems are closed under the global context (no axioms).',
     technique='Rocq/Coq proof over an executable Gallina model + regenerated finite tables + vm_compute correspondence and numpy oracles against the implementation',
 )
@@ -14,7 +14,7 @@ META = dict(
 LET = ['pI', 'pX', 'pY', 'pZ']
 ATOL = 1e-8
 HEADER = ('From Coq Require Import ZArith List Bool QArith Qcanon.\n'
-          'From VF Require Import Base.RingOps Base.Mat Base.Harness Cliff.Pauli.\n'
+          'From VF Require Import Base.RingOps Base.Mat Base.Harness Cliff.Pauli Cliff.PauliHist.\n'
           'Import ListNotations.\nOpen Scope Z_scope.\nNotation G := GQOps.\n')
 Z = coq.zlit
 
@@ -159,7 +159,17 @@ EXTRA = ('Definition inpl (sign : Z) (self : pstr (K:=GQ)) (isl : bool) (l : lis
          '  ps_eqb (ps_mul G (ps_mul G (decP n ka l) (decP n kb (skipn n l))) (decP n kc (skipn (2 * n) l))) (decP n kr (skipn (3 * n) l))\n'
          '  | _ => false end.\n'
          'Definition dmul2x (r : list Z) : bool := match r with nz :: ka :: kb :: kr :: l => let n := Z.to_nat nz in\n'
-         '  ds_eqb (ds_mul G (decD n ka l) (decD n kb (skipn n l))) (decD n kr (skipn (2 * n) l)) | _ => false end.\n')
+         '  ds_eqb (ds_mul G (decD n ka l) (decD n kb (skipn n l))) (decD n kr (skipn (2 * n) l)) | _ => false end.\n'
+         '(* histories: the states after every step against the trace of the model (Cliff/PauliHist.v) *)\n'
+         'Definition dhist (c : dstr (K:=GQ) * list (dstep (K:=GQ)) * list (bool * dstr (K:=GQ))) : bool :=\n'
+         '  match c with (a, l, t) => dtrace_eqb (ds_trace G a l) t end.\n'
+         'Definition mhist (c : pstr (K:=GQ) * list (Z * bool * list (plike (K:=GQ))) * list (pstr (K:=GQ))) : bool :=\n'
+         '  match c with (a, l, t) => ptrace_eqb (mps_trace G a l) t end.\n'
+         'Definition sstep_of (c : Z * list (pstr (K:=GQ)) * GQ) : sstep (K:=GQ) :=\n'
+         '  match c with (op, l, x) => match op with 0 => SAdd (psum_of_terms G l) | 1 => SSub (psum_of_terms G l)\n'
+         '    | 2 => SMul (psum_of_terms G l) | _ => SScale x end end.\n'
+         'Definition shist (c : list (pstr (K:=GQ)) * list (Z * list (pstr (K:=GQ)) * GQ) * list psumG) : bool :=\n'
+         '  match c with (la, l, t) => strace_eqb (psum_trace G (psum_of_terms G la) (map sstep_of l)) t end.\n')
 
 _DEPS = {'built': False}
 
@@ -174,7 +184,7 @@ def eval_text(name, text, timeout=900):
     """Like coq.coq_eval, but the model is built once per run (one `make` under the shared lock) instead of once per file."""
     import os, subprocess
     if not _DEPS['built']:
-        ok, log = coq.make(['Base/Harness.vo', 'Cliff/Pauli.vo'])
+        ok, log = coq.make(['Base/Harness.vo', 'Cliff/Pauli.vo', 'Cliff/PauliHist.vo'])
         if not ok:
             raise RuntimeError('model does not build:\n' + log[-3000:])
         _DEPS['built'] = True
@@ -1184,6 +1194,796 @@ def stream_expectation(ctx, ad, count):
                               dict(kind='expect_sim', s=ser_ps(s), terms=[ser_ps(t) for t in terms], pos=pos, n=n, circuit=cirq.to_json(circ)))
 
 
+# ---------------------------------------------------------------- histories on ONE mutable object
+# An object is observed through every view it offers (state, unitary, decomposition, frozen/sparse copies, equality,
+# repr), then changed in place, then observed again, several times over.  The reference is the full matrix of the
+# history (numpy products of the operands' matrices); the states after every step are also compared exactly with the
+# trace of the Gallina model (Cliff/PauliHist.v).  Objects derived earlier (frozen copies, copies, results of the
+# out-of-place operators) must keep their value when the original is changed later, and the other way round.
+def pz(x):
+    return (F(x[0]), F(x[1]))
+
+
+def sz(z):
+    return [str(z[0]), str(z[1])]
+
+
+def decode_pauli(R):
+    """c * (x) letters from its matrix alone: (c, letters), or None if R is not of that form."""
+    n = int(round(math.log2(R.shape[0])))
+    row0 = np.nonzero(np.abs(R[0]) > 1e-9)[0]
+    if len(row0) != 1:
+        return None
+    j = int(row0[0])
+    L = []
+    for k in range(n):
+        e = 1 << (n - 1 - k)
+        flip = (j & e) != 0
+        ratio = R[e, j ^ e] / R[0, j]
+        neg = abs(ratio + 1) < 1e-6
+        if not neg and abs(ratio - 1) > 1e-6:
+            return None
+        L.append((2 if neg else 1) if flip else (3 if neg else 0))
+    base = kron_all([PM[p] for p in L])
+    c = complex(R[0, j] / base[0, j])
+    if not np.allclose(c * base, R, atol=1e-7):
+        return None
+    return c, L
+
+
+def pad_mat(c, mask, n):
+    return c * kron_all([PM[p] for p in list(mask) + [0] * (n - len(mask))])
+
+
+def dense_views(ad, m, R, deep=True):
+    """Names of the views of the mutable dense string m that do not show the matrix R."""
+    cirq = ad.cirq
+    dec = decode_pauli(R)
+    assert dec is not None, 'reference matrix of a dense history is not a Pauli string'
+    c, L = dec
+    n = len(L)
+    qs = [ad.q(k) for k in range(n)]
+    bad = []
+    if [int(x) for x in m.pauli_mask] != L or abs(complex(m.coefficient) - c) > ATOL:
+        bad.append('pauli_mask/coefficient')
+    unit = abs(abs(c) - 1) < 1e-8
+    if bool(cirq.has_unitary(m)) != unit:
+        bad.append('has_unitary')
+    u = cirq.unitary(m, None)
+    if (u is None) == unit or (unit and not close(u, R)):
+        bad.append('unitary')
+    fz = m.frozen()
+    if [int(x) for x in fz.pauli_mask] != L or abs(complex(fz.coefficient) - c) > ATOL:
+        bad.append('frozen')
+    if unit and not close(cirq.unitary(fz), R):
+        bad.append('frozen unitary')
+    if n and not close(m.on(*qs).matrix(qs), R):
+        bad.append('on().matrix')
+    if len(m) != n or [ad.idx[g] for g in m] != L:
+        bad.append('iteration')
+    if deep:
+        if unit and n:
+            if not close(cirq.Circuit(cirq.decompose_once_with_qubits(m, qs)).unitary(qubit_order=qs), R):
+                bad.append('decompose')
+            au = cirq.apply_unitary(m, cirq.ApplyUnitaryArgs.for_unitary(num_qubits=n), None)
+            if au is None or not close(au.reshape(2 ** n, 2 ** n), R):
+                bad.append('apply_unitary')
+        # comparisons are judged against objects rebuilt from the state the object reports (same value / negated value)
+        own = cirq.MutableDensePauliString(np.array(m.pauli_mask, dtype=np.uint8), coefficient=m.coefficient)
+        neg = cirq.MutableDensePauliString(np.array(m.pauli_mask, dtype=np.uint8), coefficient=-m.coefficient)
+        if not (m == own and own == m) or m == neg or neg == m or m != m.mutable_copy():
+            bad.append('equality')
+        if not (cirq.approx_eq(m, own, atol=ATOL) and cirq.approx_eq(own, m, atol=ATOL)) or cirq.approx_eq(m, neg, atol=ATOL) \
+                or cirq.approx_eq(neg, m, atol=ATOL):
+            bad.append('approx_eq')
+        back = eval(repr(m), {'cirq': cirq, 'np': np})
+        if type(back) is not type(m) or back != own:
+            bad.append('repr')
+        if ''.join('IXYZ'[p] for p in L) not in str(m):
+            bad.append('str')
+        for nm, cp in (('copy', m.copy()), ('mutable_copy', m.mutable_copy())):
+            if cp is m or [int(x) for x in cp.pauli_mask] != L or abs(complex(cp.coefficient) - c) > ATOL:
+                bad.append(nm)
+    return bad
+
+
+def c_dstep(st):
+    k = st[0]
+    if k == 'mul':
+        return f'DMul {c_ds((pz(st[1]), st[2]))}'
+    if k == 'scale':
+        return f'DScale {gq(pz(st[1]))}'
+    if k == 'set':
+        return f'DSet {st[1]}%nat {LET[st[2]]}'
+    return f'DSlice {st[1]}%nat {c_mask(st[2])}'
+
+
+def c_dtrace(tr):
+    return '[' + '; '.join(f'({"true" if ok else "false"}, {c_ds(d)})' for ok, d in tr) + ']'
+
+
+OUT_OF_PLACE = ['neg', 'mul_scalar', 'rmul_scalar', 'div_scalar', 'pow3', 'pow2', 'abs', 'copy', 'mutable_copy', 'mul_dense', 'tensor']
+
+
+def run_dense_history(ctx, ad, desc, rows=None, stream='ds_history'):
+    """desc = dict(start={coef, mask}, steps=[...]) (JSON-able).  Steps:
+       ['mul_dense', {coef, mask}, mutable]   m *= (Mutable)DensePauliString
+       ['mul_string', {coef, items}]          m *= PauliString on LineQubits        ['mul_op', k, p]   m *= P(q_k)
+       ['mul_self']                           m *= m
+       ['scale', [re, im], real_form]         m *= number        ['div', [re, im]]   m /= number
+       ['set', i, p, form]                    m[i] = letter      ['slice', lo, [letters], form]   m[lo:lo+len] = letters
+       ['out', name]                          an out-of-place operator: right value, m untouched, result independent of m
+       ['gauss', [{coef, mask}...]]           inline_gaussian_elimination([m] + rows)
+    Returns True iff every view agreed after every step."""
+    cirq = ad.cirq
+    a = (pz(desc['start']['coef']), list(desc['start']['mask']))
+    n = len(a[1])
+    m = ad.dps(a, mutable=True)
+    R = pad_mat(cz(a[0]), a[1], n)
+    ok_all = True
+    rp = dict(kind='dense_history', start=desc['start'], steps=desc['steps'])
+    done = []
+    snapshots = []
+
+    def report(sig, what):
+        nonlocal ok_all
+        ok_all = False
+        ctx.violation(sig, what, rp)
+
+    def look(when, deep=True):
+        state0 = ad.dout(m)
+        bad = dense_views(ad, m, R, deep)
+        if ad.dout(m) != state0:
+            bad.append('observing changed the object')
+        if 'approx_eq' in bad:
+            bad.remove('approx_eq')
+            report('dense:approx-eq-stale-after-inplace',
+                   f'cirq.approx_eq on a MutableDensePauliString compares the value the object had when it was first compared '
+                   f'approximately, not its current one: after the in-place history {done} the object is {m!r}, and '
+                   f'approx_eq(m, same value) / approx_eq(m, negated value) are '
+                   f'{cirq.approx_eq(m, cirq.MutableDensePauliString(np.array(m.pauli_mask), coefficient=m.coefficient), atol=ATOL)} / '
+                   f'{cirq.approx_eq(m, cirq.MutableDensePauliString(np.array(m.pauli_mask), coefficient=-m.coefficient), atol=ATOL)}')
+        if bad:
+            c, L = decode_pauli(R)
+            u = cirq.unitary(m, None)
+            shown = np.round(u, 3).tolist() if u is not None and len(u) <= 4 else ('none' if u is None else f'{len(u)}x{len(u)} matrix')
+            report(f'{stream}:views:' + ','.join(bad),
+                   f'MutableDensePauliString({"".join("IXYZ"[p] for p in a[1])!r}, coefficient={cz(a[0])}) {when}: the history '
+                   f'{done} of in-place operations (each view read before and after every step) must leave the matrix '
+                   f'{c} * {"".join("IXYZ"[p] for p in L)} (product of the operands\' matrices), but the views {bad} show '
+                   f'something else (cirq.unitary: {shown}; state: {m!r})')
+        return not bad
+
+    look('before any operation')
+    a0, cmodel, trace = a, [], []
+    for st in desc['steps']:
+        kind = st[0]
+        before = ad.dout(m)
+        Rn = None
+        mstep = None
+        if kind == 'out':
+            done.append(f'{st[1]} (out of place)')
+            ok_all &= dense_out_of_place(ctx, ad, m, R, st[1], rp, stream)
+            look(f'after the out-of-place operator {st[1]}', deep=False)
+            continue
+        if kind == 'gauss':
+            done.append('inline_gaussian_elimination')
+            R = dense_gauss(ctx, ad, m, R, st[1], rp, stream, report)
+            look('after inline_gaussian_elimination')
+            # no model step for the elimination: the model trace so far is closed and a new one starts from the state reached
+            if rows is not None and cmodel:
+                rows.add(f'({c_ds(a0)}, {c_list(cmodel, c_dstep)}, {c_dtrace(trace)})', f'dense history {a0} {desc["steps"]} -> {trace}')
+            a0, cmodel, trace = ad.dout(m), [], []
+            continue
+        if kind in ('mul_dense', 'mul_string', 'mul_op', 'mul_self'):
+            if kind == 'mul_dense':
+                b = (pz(st[1]['coef']), list(st[1]['mask']))
+                other = ad.dps(b, mutable=bool(st[2]))
+            elif kind == 'mul_string':
+                sps = deser_ps(st[1])
+                other = ad.ps(sps)
+                b = (sps[0], mask_of(sps[1], max([k + 1 for k, _ in sps[1]] + [0])))
+            elif kind == 'mul_op':
+                other = ad.gates[st[2]](ad.q(st[1]))
+                b = (UNITS[0], [0] * st[1] + [st[2]])
+            else:
+                other = m
+                b = (before[0], list(before[1]))
+            mstep = ['mul', sz(b[0]), [int(x) for x in b[1]]]
+            accept = len(b[1]) <= n
+            if accept:
+                Rn = R @ pad_mat(cz(b[0]), b[1], n)
+            done.append(f'*= {other!r}' if other is not m else '*= itself')
+            op = lambda: m.__imul__(other)
+        elif kind in ('scale', 'div'):
+            x = pz(st[1])
+            if kind == 'scale':
+                xv = float(x[0]) if (len(st) > 2 and st[2] and x[1] == 0) else cz(x)
+                mstep = ['scale', sz(x)]
+                Rn = cz(x) * R
+                done.append(f'*= {xv!r}')
+                op = lambda: m.__imul__(xv)
+            else:
+                xv = float(x[0]) if x[1] == 0 else cz(x)
+                mstep = ['scale', sz(zinv(x))]
+                Rn = R / cz(x)
+                done.append(f'/= {xv!r}')
+                op = lambda: m.__itruediv__(xv)
+            accept = True
+        elif kind == 'set':
+            i, p = st[1], st[2]
+            val = [ad.gates[p], 'IXYZ'[p], p, 'ixyz'[p]][st[3] % 4]
+            mstep = ['set', i, p]
+            accept = i < n
+            if accept:
+                c, L = decode_pauli(R)
+                L[i] = p
+                Rn = pad_mat(c, L, n)
+            done.append(f'[{i}] = {val!r}')
+            op = lambda: m.__setitem__(i, val)
+        elif kind == 'slice':
+            lo, v = st[1], list(st[2])
+            form = st[3] % 4
+            val = [''.join('IXYZ'[p] for p in v), [ad.gates[p] for p in v], cirq.DensePauliString(v),
+                   np.array(v, dtype=np.uint8)][form]
+            mstep = ['slice', lo, v]
+            accept = lo + len(v) <= n
+            assert accept, 'slice steps are generated inside the string'
+            c, L = decode_pauli(R)
+            L[lo:lo + len(v)] = v
+            Rn = pad_mat(c, L, n)
+            done.append(f'[{lo}:{lo + len(v)}] = {val!r}')
+            op = lambda: m.__setitem__(slice(lo, lo + len(v)), val)
+        else:
+            raise AssertionError(f'unknown step {st}')
+        try:
+            ret = op()
+            raised = None
+        except (ValueError, IndexError) as e:
+            ret, raised = m, type(e).__name__
+        if ret is not m and ret is not None:
+            report(f'{stream}:return', f'in-place step {done[-1]} of a MutableDensePauliString did not return the object itself')
+        if (raised is None) != accept:
+            report(f'{stream}:rejects', f'in-place step {done[-1]} on a string of length {n}: ' +
+                   (f'raised {raised} although the operand fits' if raised else 'accepted an operand that does not fit'))
+        if raised is None and accept:
+            R = Rn
+        if kind in ('mul_dense', 'mul_string') and (ad.dout(other) if kind == 'mul_dense' else ad.out(other)) != (b if kind == 'mul_dense' else sps):
+            report(f'{stream}:operand-changed', f'in-place step {done[-1]} changed its right operand')
+        cmodel.append(mstep)
+        trace.append((raised is None, ad.dout(m)))
+        look(f'after {done[-1]}' + (f' (rejected with {raised})' if raised else ''))
+        if len(done) % 2 == 1:
+            snapshots.append((m.frozen() if len(done) % 4 == 1 else m.mutable_copy(), R.copy()))
+    for obj, R0 in snapshots:
+        got = pad_mat(complex(obj.coefficient), [int(x) for x in obj.pauli_mask], n)
+        if not close(got, R0):
+            report(f'{stream}:snapshot', f'a {type(obj).__name__} taken from a MutableDensePauliString during the history {done} '
+                                         f'changed its value when the original was modified later')
+    if rows is not None and cmodel:
+        rows.add(f'({c_ds(a0)}, {c_list(cmodel, c_dstep)}, {c_dtrace(trace)})', f'dense history {a0} {desc["steps"]} -> {trace}')
+    return ok_all
+
+
+def dense_out_of_place(ctx, ad, m, R, name, rp, stream):
+    """An out-of-place operator evaluated in the middle of a history: value by the matrices, the operand untouched, and the
+    result an object of its own (changing it in place afterwards must not reach the operand)."""
+    cirq = ad.cirq
+    c, L = decode_pauli(R)
+    n = len(L)
+    x = 1j
+    if name == 'neg':
+        r, want = -m, -R
+    elif name == 'mul_scalar':
+        r, want = m * x, x * R
+    elif name == 'rmul_scalar':
+        r, want = x * m, x * R
+    elif name == 'div_scalar':
+        r, want = m / 2, R / 2
+    elif name == 'pow3':
+        r, want = m ** 3, np.linalg.matrix_power(R, 3)
+    elif name == 'pow2':
+        r, want = m ** 2, R @ R
+    elif name == 'abs':
+        r, want = abs(m), abs(c) * kron_all([PM[p] for p in L])
+    elif name == 'copy':
+        r, want = m.copy(), R
+    elif name == 'mutable_copy':
+        r, want = m.mutable_copy(), R
+    elif name == 'mul_dense':
+        o = cirq.DensePauliString([(p + 1) % 4 for p in L], coefficient=-1)
+        r, want = m * o, R @ pad_mat(-1, [(p + 1) % 4 for p in L], n)
+    else:
+        r, want = m.tensor_product(cirq.DensePauliString([])), R
+    ok = True
+    got = pad_mat(complex(r.coefficient), [int(v) for v in r.pauli_mask], n)
+    if not close(got, want):
+        ok = False
+        ctx.violation(f'{stream}:out-of-place:{name}', f'{name} of {m!r} gives {r!r}, not the operation on the matrix', rp)
+    if r is not m and isinstance(r, cirq.MutableDensePauliString) and n:
+        state = ad.dout(m)
+        r *= 1j
+        r[0] = (int(r.pauli_mask[0]) + 1) % 4
+        r *= cirq.DensePauliString([3] * n)
+        if ad.dout(m) != state:
+            ok = False
+            ctx.violation('dense:out-of-place-result-shares-mask',
+                          f'{name} of the mutable dense string {cirq.MutableDensePauliString(list(state[1]), coefficient=cz(state[0]))!r} '
+                          f'returns a MutableDensePauliString that shares its pauli_mask with the operand: changing the result in '
+                          f'place (r *= 1j; r[0] = ...; r *= ZZ..) turned the operand into {m!r}, although no operation was applied to it',
+                          dict(rp, alias_op=name))
+            # put the operand back so that the rest of the history is judged on its own
+            m.pauli_mask[:] = state[1]
+    return ok
+
+
+def dense_gauss(ctx, ad, m, R, others, rp, stream, report):
+    """inline_gaussian_elimination on [m] + others (every row observed beforehand): every row it leaves is a product of the
+    rows it was given and the other way round -- as matrices, exactly, when the rows commute pairwise and have coefficients
+    +-1 (then every word in them is a subset product), up to the scalar otherwise; and every view of every row shows the
+    state the row reports.  Returns the matrix of m afterwards."""
+    cirq = ad.cirq
+    n = int(round(math.log2(R.shape[0])))
+    given = [(pz(o['coef']), list(o['mask'])) for o in others]
+    rows = [m] + [ad.dps(g, mutable=True) for g in given]
+    mats = [R] + [pad_mat(cz(g[0]), g[1], n) for g in given]
+    for r_, M_ in zip(rows[1:], mats[1:]):
+        if dense_views(ad, r_, M_, deep=False):
+            report(f'{stream}:views:gauss-row', f'a fresh MutableDensePauliString {r_!r} does not show its own matrix')
+    exact = all(close(A_ @ B_, B_ @ A_) for A_ in mats for B_ in mats) and all(close(A_ @ A_, np.eye(2 ** n)) for A_ in mats)
+    lst = list(rows)
+    cirq.MutableDensePauliString.inline_gaussian_elimination(lst)
+    if sorted(map(id, lst)) != sorted(map(id, rows)):
+        report(f'{stream}:gauss:rows', 'inline_gaussian_elimination replaced row objects')
+    mat_of = lambda r_: pad_mat(complex(r_.coefficient), [int(v) for v in r_.pauli_mask], n)
+    outs = [mat_of(r_) for r_ in lst]
+
+    def spanned(target, gens):
+        want = decode_pauli(target)
+        for bits in range(1 << len(gens)):
+            P = np.eye(2 ** n, dtype=complex)
+            for k in range(len(gens)):
+                if bits >> k & 1:
+                    P = P @ gens[k]
+            if close(P, target) if exact else (want is not None and decode_pauli(P)[1] == want[1]):
+                return True
+        return False
+
+    names = [repr(ad.dps(g)) for g in given]
+    for r_, M_ in zip(lst, outs):
+        if not spanned(M_, mats):
+            report(f'{stream}:gauss:span', f'inline_gaussian_elimination of the history object (matrix {decode_pauli(R)}) and {names} left the '
+                                           f'row {r_!r}, which is not {"the" if exact else "up to a scalar a"} product of given rows')
+    for M_ in mats:
+        if not spanned(M_, outs):
+            report(f'{stream}:gauss:span', f'a row given to inline_gaussian_elimination (history object with matrix {decode_pauli(R)} and '
+                                           f'{names}) is not a product of the rows it left')
+    for r_, M_ in zip(lst, outs):
+        if r_ is not m and dense_views(ad, r_, M_, deep=False):
+            report(f'{stream}:views:gauss-row', f'after inline_gaussian_elimination of {names} and the history object the row {r_!r} shows '
+                                                f'views that differ from the state it reports')
+    Rm = mat_of(m)
+    return Rm if spanned(Rm, mats) else R
+
+
+def rand_dense_step(rng, n, allow_out=True):
+    r = rng.random()
+    if r < 0.22:
+        lb = rng.randint(0, n) if rng.random() < 0.9 else n + 1
+        return ['mul_dense', dict(coef=sz(rand_coef(rng)), mask=[rng.randint(0, 3) for _ in range(lb)]), int(rng.random() < 0.3)]
+    if r < 0.32 and n:
+        s = rand_ps(rng, n if rng.random() < 0.9 else n + 1)
+        return ['mul_string', ser_ps(s)]
+    if r < 0.42 and n:
+        return ['mul_op', rng.randrange(n), rng.randint(1, 3)]
+    if r < 0.47:
+        return ['mul_self']
+    if r < 0.57:
+        return ['scale', sz(rand_coef(rng)), int(rng.random() < 0.5)]
+    if r < 0.64:
+        return ['div', sz(rand_invertible(rng))]
+    if r < 0.76 and n:
+        return ['set', rng.randrange(n) if rng.random() < 0.9 else n, rng.randint(0, 3), rng.randrange(4)]
+    if r < 0.84 and n:
+        lo = rng.randrange(n)
+        ln = rng.randint(1, n - lo)
+        return ['slice', lo, [rng.randint(0, 3) for _ in range(ln)], rng.randrange(4)]
+    if r < 0.9 and n:
+        return ['gauss', [dict(coef=sz(rng.choice([UNITS[0], UNITS[0], UNITS[2], UNITS[1]])), mask=[rng.randint(0, 3) for _ in range(n)]) for _ in range(rng.randint(1, 3))]]
+    if allow_out:
+        return ['out', rng.choice(OUT_OF_PLACE)]
+    return ['scale', sz(rng.choice(UNITS)), 0]
+
+
+def dense_history_grid(ns=(1, 2)):
+    """Fixed histories, the same for every seed: every ordered pair of letter patterns on 1 and 2 positions as (object, first
+    operand), unit coefficients cycling so that the object has a unitary to look at, every kind of in-place step following."""
+    out = []
+    for n in ns:
+        masks = all_masks(n)
+        for ia, ma in enumerate(masks):
+            for ib, mb in enumerate(masks):
+                j = ia * len(masks) + ib
+                ka, kb = (ia + ib) % 4, (ia + 3 * ib + ib // 4) % 4
+                first = [['mul_dense', dict(coef=sz(UNITS[kb]), mask=list(mb)), j % 2],
+                         ['mul_string', ser_ps((UNITS[kb], mask_items(mb)))],
+                         ['mul_dense', dict(coef=sz(UNITS[kb]), mask=list(mb[:max(n - 1, 0)])), 0]][j % 3]
+                steps = [first,
+                         ['scale', sz(UNITS[1 + j % 3]), j % 2],
+                         ['set', j % n, (ma[j % n] + 1 + j % 3) % 4, j],
+                         ['mul_op', (j + 1) % n, 1 + j % 3],
+                         ['div', sz(UNITS[1 + (j // 3) % 3])],
+                         ['slice', 0, [(p + 1 + j) % 4 for p in mb], j // 2],
+                         ['mul_self'] if j % 4 == 0 else ['mul_dense', dict(coef=sz(UNITS[ka]), mask=list(ma)), 1]]
+                if j % 8 == 3:
+                    steps.insert(2, ['gauss', [dict(coef=sz(UNITS[0]), mask=list(mb))]])
+                if j % 8 == 5:
+                    steps.insert(1, ['out', OUT_OF_PLACE[(j // 8) % len(OUT_OF_PLACE)]])
+                out.append(dict(start=dict(coef=sz(UNITS[ka]), mask=list(ma)), steps=steps))
+    return out
+
+
+# ---- MutablePauliString
+def deser_like(d):
+    kind, v = d
+    if kind in ('ps', 'op'):
+        return (kind, deser_ps(v))
+    if kind == 'num':
+        return (kind, pz(v))
+    if kind == 'map':
+        return (kind, [(int(k), int(p)) for k, p in v])
+    if kind == 'id':
+        return (kind, int(v))
+    return (kind, [deser_like(x) for x in v])
+
+
+def like_build(ad, d):
+    """(cirq value, Gallina plike terms) of a PAULI_STRING_LIKE description."""
+    kind, v = d
+    if kind == 'ps':
+        return ad.ps(v), [f'LPS {c_ps(v)}']
+    if kind == 'op':
+        (k, p), = v[1]
+        return ad.gates[p](ad.q(k)), [f'LPS {c_ps(v)}']
+    if kind == 'num':
+        return (cz(v) if v[1] != 0 else float(v[0])), [f'LNum {gq(v)}']
+    if kind == 'map':
+        return {ad.q(k): ad.gates[p] for k, p in v}, [f'LMap {c_pm(v)}']
+    if kind == 'id':
+        return ad.cirq.I(ad.q(v)), ['LId']
+    parts = [like_build(ad, x) for x in v]
+    return [x[0] for x in parts], [t for x in parts for t in x[1]]
+
+
+def mps_views(ad, m, R, qs, deep=True):
+    cirq = ad.cirq
+    dec = decode_pauli(R)
+    assert dec is not None, 'reference matrix of a MutablePauliString history is not a Pauli string'
+    c, L = dec
+    want = {k: p for k, p in zip(qs, L) if p}
+    qm = [ad.q(k) for k in qs]
+    bad = []
+    fz = m.frozen()
+    got = {q.x: ad.idx[g] for q, g in fz.items()}
+    if got != want or abs(complex(fz.coefficient) - c) > ATOL or abs(complex(m.coefficient) - c) > ATOL:
+        bad.append('frozen')
+    if not close(fz.matrix(qm), R):
+        bad.append('frozen().matrix')
+    if {q.x: ad.idx[g] for q, g in m.items()} != want or len(m) != len(want) or bool(m) != bool(want) \
+            or {q.x for q in m.keys()} != set(want) or sorted(ad.idx[g] for g in m.values()) != sorted(want.values()):
+        bad.append('items/len/keys/values')
+    for k in qs:
+        q = ad.q(k)
+        if (q in m) != (k in want) or m.get(q) is not (ad.gates[want[k]] if k in want else None) or (k in want and m[q] is not ad.gates[want[k]]):
+            bad.append('lookup')
+            break
+    if deep:
+        own = cirq.MutablePauliString(coefficient=m.coefficient, pauli_int_dict=dict(m.pauli_int_dict))
+        neg = cirq.MutablePauliString(coefficient=-m.coefficient, pauli_int_dict=dict(m.pauli_int_dict))
+        if not (m == own and own == m) or m == neg or m != m.mutable_copy():
+            bad.append('equality')
+        if not cirq.approx_eq(m, own, atol=ATOL) or cirq.approx_eq(m, neg, atol=ATOL):
+            bad.append('approx_eq')
+        back = eval(repr(m), {'cirq': cirq, 'np': np})
+        if not isinstance(back, cirq.MutablePauliString) or not close(back.frozen().matrix(qm), R):
+            bad.append('repr')
+        if not close(m.mutable_copy().frozen().matrix(qm), R) or not close((-m).frozen().matrix(qm), -R) \
+                or not close((m * 1).matrix(qm), R):
+            bad.append('mutable_copy/neg/mul')
+        if abs(abs(c) - 1) < 1e-8 and want and not close(cirq.Circuit(fz).unitary(qubit_order=qm), R):
+            bad.append('frozen unitary')
+    return bad
+
+
+def run_mps_history(ctx, ad, desc, rows=None, stream='mps_history'):
+    """desc = dict(start=ser_ps, n, steps): ['mul', which, like] (0 inplace_left_multiply_by, 1 inplace_right_multiply_by,
+    2 *=), ['conj', 'before'|'after', [op json]], ['set', k, p, form], ['del', k], ['coef', [re, im]]."""
+    cirq = ad.cirq
+    a = deser_ps(desc['start'])
+    n = desc['n']
+    qs = list(range(n))
+    qm = [ad.q(k) for k in qs]
+    m = ad.mps(a)
+    R = ad.mat(a, qs)
+    rp = dict(kind='mps_history', start=desc['start'], n=n, steps=desc['steps'])
+    done, ok_all, snapshots = [], True, []
+
+    def report(sig, what):
+        nonlocal ok_all
+        ok_all = False
+        ctx.violation(sig, what, rp)
+
+    def look(when, deep=True):
+        bad = mps_views(ad, m, R, qs, deep)
+        if bad:
+            c, L = decode_pauli(R)
+            report(f'{stream}:views:' + ','.join(bad),
+                   f'MutablePauliString {ad.ps(a)!r} {when}: the history {done} must leave the matrix {c} * '
+                   f'{"".join("IXYZ"[p] for p in L)} on qubits {qs}, but the views {bad} show something else (object: {m!r})')
+
+    look('before any operation')
+    cmodel, trace, pure = [], [], True
+    for st in desc['steps']:
+        kind = st[0]
+        if kind == 'mul':
+            which, ld = st[1], deser_like(st[2])
+            val, terms = like_build(ad, ld)
+            MX = like_matrix(ad, ld, qs)
+            done.append(f'{["inplace_left_multiply_by", "inplace_right_multiply_by", "*="][which]} {val!r}')
+            ret = [m.inplace_left_multiply_by, m.inplace_right_multiply_by, m.__imul__][which](val)
+            R = R @ MX if which == 0 else MX @ R
+            cmodel.append(f'({Z(-1 if which == 0 else 1)}, {"true" if ld[0] == "list" else "false"}, {c_list(terms)})')
+        elif kind == 'conj':
+            ops = [cirq.read_json(json_text=t) for t in st[2]]
+            C = cirq.Circuit(ops).unitary(qubit_order=qm) if ops else np.eye(2 ** n)
+            done.append(f'inplace_{st[1]}({ops})')
+            ret = (m.inplace_before if st[1] == 'before' else m.inplace_after)(ops)
+            R = C @ R @ C.conj().T if st[1] == 'after' else C.conj().T @ R @ C
+            pure = False
+        elif kind == 'set':
+            k, p = st[1], st[2]
+            val = [ad.gates[p], 'IXYZ'[p], p][st[3] % 3]
+            done.append(f'[q{k}] = {val!r}')
+            m[ad.q(k)] = val
+            ret = m
+            c, L = decode_pauli(R)
+            L[k] = p
+            R = pad_mat(c, L, n)
+            pure = False
+        elif kind == 'del':
+            k = st[1]
+            done.append(f'del [q{k}]')
+            c, L = decode_pauli(R)
+            try:
+                del m[ad.q(k)]
+                if L[k] == 0:
+                    report(f'{stream}:del', f'del of an absent qubit did not raise KeyError after {done}')
+            except KeyError:
+                if L[k] != 0:
+                    report(f'{stream}:del', f'del of a present qubit raised KeyError after {done}')
+            ret = m
+            L[k] = 0
+            R = pad_mat(c, L, n)
+            pure = False
+        else:
+            x = pz(st[1])
+            done.append(f'.coefficient = {cz(x)!r}')
+            m.coefficient = cz(x)
+            ret = m
+            c, L = decode_pauli(R)
+            R = pad_mat(cz(x), L, n)
+            pure = False
+        if ret is not m:
+            report(f'{stream}:return', f'in-place step {done[-1]} of a MutablePauliString did not return the object itself')
+        if pure:
+            trace.append(ad.out(m.frozen()))
+        look(f'after {done[-1]}')
+        if len(done) % 2 == 1:
+            snapshots.append((m.frozen() if len(done) % 4 == 1 else m.mutable_copy(), R.copy()))
+    for obj, R0 in snapshots:
+        if not close((obj if isinstance(obj, cirq.PauliString) else obj.frozen()).matrix(qm), R0):
+            report(f'{stream}:snapshot', f'a {type(obj).__name__} taken from a MutablePauliString during the history {done} changed its '
+                                         f'value when the original was modified later')
+    if rows is not None and trace:
+        rows.add(f'({c_ps(a)}, {c_list(cmodel[:len(trace)])}, {c_list(trace, c_ps)})', f'mutable history {a} {desc["steps"]} -> {trace}')
+    return ok_all
+
+
+def rand_mps_desc(rng, ad, pure):
+    cirq = ad.cirq
+    n = rng.choice([1, 2, 3, 3, 4])
+    a = rand_ps(rng, n)
+    steps = []
+    for _ in range(rng.randint(1, 5)):
+        r = rng.random()
+        if pure or r < 0.5:
+            steps.append(['mul', rng.randrange(3), ser_like(rand_like(rng, ad, n)[2])])
+        elif r < 0.7:
+            ops = [clifford_ops(cirq, rng, n, ad) for _ in range(rng.randint(1, 3))]
+            steps.append(['conj', rng.choice(['before', 'after']), [cirq.to_json(o) for o in ops]])
+        elif r < 0.85:
+            steps.append(['set', rng.randrange(n), rng.randint(0, 3), rng.randrange(3)])
+        elif r < 0.93:
+            steps.append(['del', rng.randrange(n)])
+        else:
+            steps.append(['coef', sz(rand_coef(rng))])
+    return dict(start=ser_ps(a), n=n, steps=steps)
+
+
+def mps_history_grid(stride=1):
+    """Fixed: ordered pairs of one- and two-qubit patterns (all of them on one qubit, every stride-th on two), three
+    multiplications each (left, right, *=) and an assignment."""
+    out = []
+    for n in (1, 2):
+        masks = all_masks(n)
+        for ia, ma in enumerate(masks):
+            for ib, mb in enumerate(masks):
+                j = ia * len(masks) + ib
+                if n == 2 and (ia + ib) % stride:
+                    continue
+                b = (UNITS[(ia + 2 * ib) % 4], mask_items(mb))
+                like = ser_like(('ps', b)) if j % 3 else ser_like(('map', mask_items(mb)))
+                steps = [['mul', j % 3, like], ['mul', (j + 1) % 3, ser_like(('op', (UNITS[0], [(j % n, 1 + j % 3)])))],
+                         ['set', (j + 1) % n, (j // 2) % 4, j], ['mul', (j + 2) % 3, ser_like(('ps', b))]]
+                out.append(dict(start=ser_ps((UNITS[(ia + ib) % 4], mask_items(ma))), n=n, steps=steps))
+    return out
+
+
+# ---- PauliSum
+def psum_views(ad, S, R, qs, psi):
+    cirq = ad.cirq
+    qm = [ad.q(k) for k in qs]
+    bad = []
+    if not close(S.matrix(qm), R):
+        bad.append('matrix')
+    if not close(S.sparse_matrix(qm).toarray(), R):
+        bad.append('sparse_matrix')
+    terms = list(S)
+    tot = np.zeros_like(R)
+    for t in terms:
+        tot = tot + t.matrix(qm)
+    if not close(tot, R) or len(S) != len(terms):
+        bad.append('iteration')
+    fresh = cirq.PauliSum.from_pauli_strings(terms)
+    if not (S == fresh and fresh == S) or not close(S.copy().matrix(qm), R):
+        bad.append('equality/copy')
+    try:
+        ev = S.expectation_from_state_vector(psi, {q: i for i, q in enumerate(qm)}, check_preconditions=False) if _hermitian(R) else None
+    except NotImplementedError:      # a term with a complex coefficient (they may cancel in the matrix)
+        ev = None
+    if ev is not None and abs(ev - np.vdot(psi, R @ psi)) > 1e-6:
+        bad.append('expectation')
+    return bad
+
+
+def _hermitian(R):
+    return bool(np.allclose(R, R.conj().T, atol=1e-9))
+
+
+def run_psum_history(ctx, ad, desc, rows=None, stream='psum_history'):
+    """desc = dict(start=[ser_ps], n, steps): ['add'|'sub'|'mul', [ser_ps], spelling] (spelling 1 with one term: the operand is
+    the PauliString itself), ['scale', [re, im]], ['div', [re, im]]."""
+    cirq = ad.cirq
+    n = desc['n']
+    qs = list(range(n))
+    qm = [ad.q(k) for k in qs]
+    ta = [deser_ps(t) for t in desc['start']]
+    S = ad.psum(ta)
+    R = sum_matrix(ad, ta, qs)
+    psi = np.array([complex(math.cos(0.3 + 0.7 * i), math.sin(1.1 * i)) for i in range(2 ** n)])
+    psi = psi / np.linalg.norm(psi)
+    rp = dict(kind='psum_history', start=desc['start'], n=n, steps=desc['steps'])
+    done, ok_all, snapshots = [], True, []
+
+    def report(sig, what):
+        nonlocal ok_all
+        ok_all = False
+        ctx.violation(sig, what, rp)
+
+    def look(when):
+        bad = psum_views(ad, S, R, qs, psi)
+        if bad:
+            report(f'{stream}:views:' + ','.join(bad),
+                   f'PauliSum {ad.psum(ta)} {when}: after the in-place history {done} the views {bad} do not show the same '
+                   f'operations applied to the matrices (object: {S})')
+
+    look('before any operation')
+    cmodel, trace = [], []
+    for st in desc['steps']:
+        kind = st[0]
+        S0 = S
+        if kind in ('add', 'sub', 'mul'):
+            tb = [deser_ps(t) for t in st[1]]
+            other = ad.ps(tb[0]) if st[2] == 1 and len(tb) == 1 else ad.psum(tb)
+            MB = sum_matrix(ad, tb, qs)
+            before_other = other.matrix(qm)
+            if kind == 'add':
+                S += other
+                R = R + MB
+            elif kind == 'sub':
+                S -= other
+                R = R - MB
+            else:
+                S *= other
+                R = R @ MB
+            done.append(f'{dict(add="+=", sub="-=", mul="*=")[kind]} {other}')
+            cmodel.append(f'({dict(add=0, sub=1, mul=2)[kind]}, {c_list(tb, c_ps)}, {gq(UNITS[0])})')
+            if S is not S0:
+                report(f'{stream}:return', f'{done[-1]} on a PauliSum did not keep the object')
+            if not close(other.matrix(qm), before_other):
+                report(f'{stream}:operand-changed', f'{done[-1]} changed its right operand')
+        else:
+            x = pz(st[1])
+            xv = cz(x) if x[1] != 0 else float(x[0])
+            if kind == 'scale':
+                S *= xv
+                R = R * cz(x)
+                cmodel.append(f'(3, [], {gq(x)})')
+                if S is not S0:
+                    report(f'{stream}:return', f'*= {xv} on a PauliSum did not keep the object')
+            else:
+                S /= xv
+                R = R / cz(x)
+                cmodel.append(f'(3, [], {gq(zinv(x))})')
+                if S0 is not S and not close(S0.matrix(qm), R * cz(x)):
+                    report(f'{stream}:operand-changed', f'/= {xv} rebinding changed the old PauliSum')
+            done.append(f'{"*=" if kind == "scale" else "/="} {xv!r}')
+        trace.append(sum_terms_of(ad, S))
+        look(f'after {done[-1]}')
+        if len(done) % 2 == 1:
+            snapshots.append((S.copy(), R.copy()))
+    for obj, R0 in snapshots:
+        if not close(obj.matrix(qm), R0):
+            report(f'{stream}:snapshot', f'a copy taken from a PauliSum during the history {done} changed when the original was modified later')
+    if rows is not None and trace:
+        rows.add(f'({c_list(ta, c_ps)}, {c_list(cmodel)}, {c_list(trace, c_sum)})', f'PauliSum history {ta} {desc["steps"]} -> {trace}')
+    return ok_all
+
+
+def rand_psum_desc(rng):
+    n = rng.choice([1, 2, 2, 3, 3])
+    mk = lambda lo: [ser_ps(rand_ps(rng, n, p_present=0.5)) for _ in range(rng.randint(lo, 2))]
+    steps = []
+    for _ in range(rng.randint(1, 4)):
+        r = rng.random()
+        if r < 0.7:
+            steps.append([rng.choice(['add', 'sub', 'mul']), mk(1), rng.randrange(2)])
+        elif r < 0.87:
+            steps.append(['scale', sz(rand_coef(rng))])
+        else:
+            steps.append(['div', sz(rand_invertible(rng))])
+    return dict(start=mk(0), n=n, steps=steps)
+
+
+def stream_histories(ctx, ad, count, mps_stride=1):
+    cirq, rng = ad.cirq, ctx.rng
+    GD = Rows('ds_history', f'{T_DS} * list (dstep (K:=GQ)) * list (bool * {T_DS})', 'dhist')
+    GM = Rows('mps_history', f'{T_PS} * list (Z * bool * list (plike (K:=GQ))) * list ({T_PS})', 'mhist')
+    GS = Rows('psum_history', f'list ({T_PS}) * list (Z * list ({T_PS}) * GQ) * list psumG', 'shist')
+    for desc in dense_history_grid():
+        ctx.count('ds_history_grid', desc, True,
+                  sample=dict(start=desc['start'], steps=[s[0] for s in desc['steps']]) if len(desc['start']['mask']) == 2 else None)
+        run_dense_history(ctx, ad, desc, GD, 'ds_history')
+    for desc in mps_history_grid(mps_stride):
+        ctx.count('mps_history_grid', desc, True)
+        run_mps_history(ctx, ad, desc, GM)
+    for it in range(count):
+        n = rng.choice([1, 2, 3, 3, 4, 4])
+        coef = rng.choice(UNITS) if rng.random() < 0.7 else rand_coef(rng)
+        desc = dict(start=dict(coef=sz(coef), mask=[rng.randint(0, 3) for _ in range(n)]),
+                    steps=[rand_dense_step(rng, n) for _ in range(rng.randint(1, 6))])
+        ctx.count('ds_history', desc, len(desc['steps']) > 1, sample=dict(start=desc['start'], steps=[s[0] for s in desc['steps']]))
+        run_dense_history(ctx, ad, desc, GD, 'ds_history')
+        desc = rand_mps_desc(rng, ad, pure=it % 2 == 0)
+        ctx.count('mps_history', desc, len(desc['steps']) > 1, sample=dict(start=desc['start'], steps=[s[0] for s in desc['steps']]))
+        run_mps_history(ctx, ad, desc, GM)
+        desc = rand_psum_desc(rng)
+        ctx.count('psum_history', desc, len(desc['steps']) > 1, sample=dict(start=desc['start'], steps=[s[0] for s in desc['steps']]))
+        run_psum_history(ctx, ad, desc, GS)
+    flush_rows(ctx, 'hist', [GD, GM, GS], budget=500)
+
+
+
 # ---------------------------------------------------------------- driver
 def stream_measure_observables(ctx, cirq, count):
     """Expectation values estimated by sampling (cirq.work.measure_observables, with and without readout symmetrization)
@@ -1254,6 +2054,10 @@ def _run(ctx):
                 'dict orders, all spellings of each operator; results compared exactly (coefficient, letter per qubit, term '
                 'coefficients) with the Gallina model by vm_compute and as matrices with numpy references (tol 1e-8); Clifford '
                 'conjugation (all 24 one-qubit Cliffords, named two-qubit Cliffords on all 15 strings, random Clifford circuits), '
+                'histories on one mutable object (fixed grid: all ordered pairs of patterns on 1-2 positions followed by every kind of '
+                'in-place step, plus random histories of 1-6 steps incl. rejected steps, self-multiplication, out-of-place operators and '
+                'inline_gaussian_elimination) with all views (state, unitary, decomposition, apply_unitary, frozen/sparse copies, '
+                'equality, approx_eq, repr) read before and after every step, '
                 'PauliStringPhasor / P**t / e**(iaP) / PauliSumExponential against scipy expm, expectation values against '
                 '<psi|P|psi> and tr(rho P) for random states and qubit maps; non-trivial = operands share a qubit / operator is '
                 'not the identity case; distinct by canonical input')
@@ -1280,6 +2084,7 @@ def _run(ctx):
     timed('strings random', stream_ps_random, ctx, ad, 300 if quick else 4000)
     timed('dense', stream_dense, ctx, ad, 300 if quick else 4000, [1, 2] if quick else [1, 2, 3])
     timed('sums', stream_sums, ctx, ad, 300 if quick else 4000)
+    timed('histories', stream_histories, ctx, ad, 80 if quick else 2500, 4 if quick else 1)
     timed('conjugation', stream_conjugation, ctx, ad, 300 if quick else 4000, not quick)
     timed('rotations', stream_rotations, ctx, ad, 200 if quick else 2500)
     timed('expectation', stream_expectation, ctx, ad, 200 if quick else 2500)
@@ -1423,6 +2228,15 @@ def replay(ctx, data):
         res, ref = {'+': (A_ + B_, MA + MB), '-': (A_ - B_, MA - MB), '*': (A_ * B_, MA @ MB), 'from': (A_, MA)}[data['op']]
         if not close(res.matrix(qm), ref):
             pr.hit.append(('psum', 'differs'))
+    elif k in ('dense_history', 'mps_history', 'psum_history'):
+        run = dict(dense_history=run_dense_history, mps_history=run_mps_history, psum_history=run_psum_history)[k]
+        desc = {f: data[f] for f in ('start', 'steps', 'n') if f in data}
+        print('history:', desc)
+        run(pr, ad, desc)
+        # findings with a signature of their own (recorded separately) are judged only when they are what is replayed
+        own = ('dense:approx-eq-stale-after-inplace', 'dense:out-of-place-result-shares-mask')
+        sig = data.get('signature')
+        pr.hit = [h for h in pr.hit if (h[0] == sig if sig in own else h[0] not in own)]
     elif k == 'broken':
         print('no failing input was found; the broken obligations / correspondence streams were:')
         for b in data.get('broken', []):
